@@ -209,6 +209,41 @@ def decide(path, t):
         f = facts.get(n)
         if f is not None:
             return not bool(f.val)
+    if t.bits == 1 and t.op in ("ult", "ule", "eq", "ne"):
+        return _decide_linear(facts, nfacts, t)
+    return None
+
+
+def _decide_linear(facts, nfacts, t):
+    """comparison of two symbolic quantities implied (or refuted) by the recorded comparisons: linear arithmetic over
+    the path facts; recorded disequalities x != v are used by splitting into x < v and x > v"""
+    from zx import lia
+    syms_t = tm.syms(t)
+    neq = [(x, v) for x, vs in nfacts.items() for v in vs if isinstance(x, T) and not x.is_const() and (tm.syms(x) & syms_t)][:3]
+    verdicts = set()
+    for mask_ in range(1 << len(neq)):
+        extra = []
+        for i, (x, v) in enumerate(neq):
+            if (mask_ >> i) & 1:
+                extra.append((tm.cmp("ult", K(v, x.bits), x), 1))
+            else:
+                extra.append((tm.cmp("ult", x, K(v, x.bits)), 1))
+        try:
+            cons, ctx = lia.hypotheses(dict(facts), extra=extra)
+            if lia.infeasible(cons):
+                continue
+            yes, _ = lia.hypotheses(dict(facts), extra=extra + [(t, 0)])
+            no, _ = lia.hypotheses(dict(facts), extra=extra + [(t, 1)])
+        except Exception:
+            return None
+        if lia.infeasible(yes):
+            verdicts.add(True)
+        elif lia.infeasible(no):
+            verdicts.add(False)
+        else:
+            return None
+    if len(verdicts) == 1:
+        return verdicts.pop()
     return None
 
 
